@@ -1,6 +1,7 @@
 package sim
 
 import (
+	"bytes"
 	"fmt"
 	"path/filepath"
 	"testing"
@@ -55,6 +56,19 @@ func TestC07(t *testing.T) {
 		}
 		if s.Leaked {
 			Ev.Probe("goroutines_left_blocked_after_optimize")
+		}
+		if or.Again != nil && rapid.IntRange(0, 3).Draw(rt, "optimizeagain") == 0 {
+			// the same context and pools used for a second optimization: same patch again
+			r2 := or.Again()
+			if r2.Panic != "" || r2.Err != nil {
+				Violation(rt, "C07/second-optimize-failed", "%v %s (%s)", r2.Err, r2.Panic, kd)
+				return
+			}
+			if !bytes.Equal(r2.Patch, or.Patch) {
+				Violation(rt, "C07/second-optimize-differs", "optimizing the same patch a second time with the same context and pools gives a different patch (%d vs %d bytes) (%s)", len(r2.Patch), len(or.Patch), kd)
+				return
+			}
+			Ev.Probe("optimized_twice_with_the_same_context")
 		}
 
 		// fresh
